@@ -14,6 +14,7 @@ import (
 	"path/filepath"
 	"runtime"
 	"runtime/debug"
+	"runtime/pprof"
 	"sort"
 	"strconv"
 	"strings"
@@ -45,6 +46,28 @@ func main() {
 		worker(os.Args[2], os.Args[3], atoi(os.Args[4]), atoi(os.Args[5]), os.Args[6])
 	case "replay":
 		os.Exit(replay(os.Args[2], os.Args[3]))
+	case "job":
+		// mc job <prop> <tier> <substring>: run matching jobs in-process and print their stats
+		c := mc.Registry[os.Args[2]]
+		if pf := os.Getenv("MC_PROF"); pf != "" {
+			f, _ := os.Create(pf)
+			pprof.StartCPUProfile(f)
+			defer pprof.StopCPUProfile()
+		}
+		for _, j := range c.Jobs(os.Args[3]) {
+			if !strings.Contains(j.Name, os.Args[4]) {
+				continue
+			}
+			rep := mc.NewReport(os.Args[2], os.Args[3])
+			rep.Deadline = deadlineFor(os.Args[3])
+			rep.SetJob(j.Name)
+			t0 := time.Now()
+			j.Run(rep)
+			fmt.Printf("%-60s exec=%d trans=%d states=%d outcomes=%d viol=%d capped=%v extra=%v %.1fs\n", j.Name, rep.Executions, rep.Transitions, rep.States, len(rep.Outcomes), len(rep.Violations), rep.Capped, rep.Extra, time.Since(t0).Seconds())
+			for _, v := range rep.Violations {
+				fmt.Println("   ", v.Sig(), v.Count)
+			}
+		}
 	case "list":
 		for p := range mc.Registry {
 			fmt.Println(p)
@@ -82,14 +105,22 @@ func worker(prop, tier string, i, n int, out string) {
 	}
 	rep := mc.NewReport(prop, tier)
 	rep.Deadline = deadlineFor(tier)
+	if v := os.Getenv("MC_DEADLINE_UNIX"); v != "" {
+		rep.Deadline = time.Unix(int64(atoi(v)), 0)
+	}
 	jobs := c.Jobs(tier)
+	// n == 0: run exactly job i
 	for k, j := range jobs {
-		if k%n != i {
+		if (n == 0 && k != i) || (n > 0 && k%n != i) {
 			continue
 		}
 		os.WriteFile(out+".progress", []byte(j.Name), 0o644)
 		rep.SetJob(j.Name)
+		t0 := time.Now()
 		j.Run(rep)
+		if os.Getenv("MC_TIMING") != "" {
+			fmt.Fprintf(os.Stderr, "TIMING %8.1fs exec=%-8d %s\n", time.Since(t0).Seconds(), rep.Executions, j.Name)
+		}
 		// flush after every job so that a later crash loses nothing
 		b, _ := json.Marshal(rep)
 		os.WriteFile(out, b, 0o644)
@@ -132,44 +163,59 @@ func coordinate(prop, tier string) int {
 	var mu sync.Mutex
 	var wg sync.WaitGroup
 	machErr := false
-	for i := 0; i < n; i++ {
+	deadline := deadlineFor(tier)
+	// dynamic distribution: one process per job, heaviest first, n at a time
+	order := make([]int, len(jobs))
+	for i := range order {
+		order[i] = i
+	}
+	sort.SliceStable(order, func(a, b int) bool { return jobs[order[a]].Weight > jobs[order[b]].Weight })
+	next := 0
+	for w := 0; w < n; w++ {
 		wg.Add(1)
-		go func(i int) {
+		go func(w int) {
 			defer wg.Done()
-			out := filepath.Join(tmp, fmt.Sprintf("w%d.json", i))
-			cmd := exec.Command(self, "worker", prop, tier, strconv.Itoa(i), strconv.Itoa(n), out)
-			cmd.Stderr = os.Stderr
-			cmd.Stdout = os.Stderr
-			cmd.Env = append(os.Environ(), "GOMAXPROCS=1")
-			err := cmd.Run()
-			mu.Lock()
-			defer mu.Unlock()
-			if b, rerr := os.ReadFile(out); rerr == nil {
-				var rep mc.Report
-				if json.Unmarshal(b, &rep) == nil {
-					w := mc.NewReport(prop, tier)
-					w.Merge(&rep)
-					total.Merge(w)
+			for {
+				mu.Lock()
+				if next >= len(order) {
+					mu.Unlock()
+					return
 				}
+				i := order[next]
+				next++
+				mu.Unlock()
+				out := filepath.Join(tmp, fmt.Sprintf("j%d.json", i))
+				cmd := exec.Command(self, "worker", prop, tier, strconv.Itoa(i), "0", out)
+				cmd.Stderr = os.Stderr
+				cmd.Stdout = os.Stderr
+				cmd.Env = append(os.Environ(), "GOMAXPROCS=1", fmt.Sprintf("MC_DEADLINE_UNIX=%d", deadline.Unix()))
+				err := cmd.Run()
+				mu.Lock()
+				if b, rerr := os.ReadFile(out); rerr == nil {
+					var rep mc.Report
+					if json.Unmarshal(b, &rep) == nil {
+						wr := mc.NewReport(prop, tier)
+						wr.Merge(&rep)
+						total.Merge(wr)
+					}
+				}
+				if err != nil {
+					job := jobs[i].Name
+					code := -1
+					if ee, ok := err.(*exec.ExitError); ok {
+						code = ee.ExitCode()
+					}
+					if code == 2 || code == 3 {
+						machErr = true
+						total.MachErr = append(total.MachErr, fmt.Sprintf("worker exited %d in job %s", code, job))
+					} else {
+						// a crash of the process (fatal error: stack overflow, out of memory …)
+						total.Violate(map[string]string{"clause": "crash", "job": scenName(job)}, fmt.Sprintf("worker crashed (%v) while running job %s", err, job), map[string]any{"job": job})
+					}
+				}
+				mu.Unlock()
 			}
-			if err != nil {
-				job := "?"
-				if b, e := os.ReadFile(out + ".progress"); e == nil {
-					job = string(b)
-				}
-				code := -1
-				if ee, ok := err.(*exec.ExitError); ok {
-					code = ee.ExitCode()
-				}
-				if code == 2 || code == 3 {
-					machErr = true
-					total.MachErr = append(total.MachErr, fmt.Sprintf("worker %d exited %d in job %s", i, code, job))
-				} else {
-					// a crash of the process (fatal error: stack overflow, out of memory …)
-					total.Violate(map[string]string{"clause": "crash", "job": job}, fmt.Sprintf("worker crashed (%v) while running job %s", err, job), map[string]any{"job": job})
-				}
-			}
-		}(i)
+		}(w)
 	}
 	wg.Wait()
 	return finish(c, total, seed, start, machErr)
@@ -268,6 +314,13 @@ func finish(c *mc.Check, total *mc.Report, seed int, start time.Time, machErr bo
 		return 2
 	}
 	return exit
+}
+
+func scenName(j string) string {
+	if i := strings.IndexByte(j, '/'); i >= 0 {
+		return j[:i]
+	}
+	return j
 }
 
 func firstLines(s string, n int) string {
